@@ -69,7 +69,7 @@ class DifferentialCheck(core.CheckBase):
                 offset = next((i for i, (a, b) in enumerate(zip(composed, pair.wire)) if a != b),
                               min(len(composed), len(pair.wire)))
                 found.append(self.violation(
-                    'compose-differs|%s' % name,
+                    'compose-differs|%s%s' % (name, pair.key_suffix),
                     '%s: library composes %s, the specification says %s (first difference at byte %d; lengths %d / %d)' % (
                         pair.label, composed[max(0, offset - 8):offset + 12].hex(), pair.wire[max(0, offset - 8):offset + 12].hex(),
                         offset, len(composed), len(pair.wire)), case))
